@@ -82,11 +82,18 @@ class ClassInfo:
         return None
 
     def lookup_prop(self, name: str) -> Optional[Prop]:
-        """Effective property: getter and setter may come from different classes only if the
-        subclass re-declares with @Base.name.setter (not used in this repo) -> first class wins."""
+        """Effective property of this class. A class that declares only `@Base.name.setter` inherits the getter;
+        a class that re-declares `@property name` without a setter makes it read-only (Python semantics)."""
         for c in self.mro():
             if name in c.props:
-                return c.props[name]
+                p = c.props[name]
+                if p.getter is None:
+                    for b in self.mro()[self.mro().index(c) + 1:]:
+                        if name in b.props and b.props[name].getter is not None:
+                            return Prop(name, b.props[name].getter, p.setter, p.setter_funcname, c)
+                return p
+            if name in c.methods or name in c.class_attrs:
+                return None
         return None
 
     def lookup_attr(self, name: str) -> Optional[Tuple["ClassInfo", ast.expr]]:
@@ -217,7 +224,7 @@ class Repo:
                     continue
                 setter = [d for d in decs if d.endswith(".setter")]
                 if setter:
-                    pname = setter[0][: -len(".setter")]
+                    pname = setter[0][: -len(".setter")].split(".")[-1]   # also @Base.prop.setter
                     p = ci.props.setdefault(pname, Prop(pname, owner=ci))
                     p.setter = node
                     p.setter_funcname = node.name
